@@ -668,6 +668,8 @@ def run(ctx):
     judge(ctx, items, answers)
     if not ctx.failures:
         stream_pb_levels(ctx)
+    if not ctx.failures:
+        stream_dict_api(ctx)
 
 
 def pb_levels_violation(levels):
@@ -682,6 +684,54 @@ def pb_levels_violation(levels):
     except Exception as e:   # noqa
         return "raises %s: %s" % (type(e).__name__, e)
     return p_pb([(lv[0], lv[-1]) for lv in levels], rows)
+
+
+def dict_api_violation(kind, levels):
+    """doe.build_full_fact / doe.build_box_behnken called directly with a dictionary of level lists (the functions behind
+    the generators, public in artap.doe).  Returns None or a sentence."""
+    import itertools
+    from artap import doe
+    names = ["%s%d" % ("wqhdzkbpxm"[j % 10], j) for j in range(len(levels))]      # declaration order, not sorted order
+    d = {nm: list(lv) for nm, lv in zip(names, levels)}
+    try:
+        rows = [tuple(r) for r in (doe.build_full_fact(d) if kind == "ff" else doe.build_box_behnken(d))]
+    except Exception as e:   # noqa
+        return "raises %s: %s" % (type(e).__name__, e)
+    if any(len(r) != len(levels) for r in rows):
+        return "a run does not have %d factors" % len(levels)
+    if kind == "ff":
+        exp = list(itertools.product(*levels))
+        if sorted(rows) != sorted(exp):
+            return "not every combination of the levels exactly once: %d runs, expected %d (e.g. missing %r, unexpected %r)" % (
+                len(rows), len(exp), [e for e in exp if e not in rows][:1], [r for r in rows if r not in exp][:1])
+        return None
+    lo = [min(lv) for lv in levels]
+    hi = [max(lv) for lv in levels]
+    mid = [sorted(lv)[1] if len(lv) == 3 else (Fraction(lv[0]) + Fraction(lv[1])) / 2 for lv in levels]
+    exp = bb_expected(len(levels), lo, mid, hi)
+    if not rows_close(rows, exp):
+        return "runs are not {every corner of every factor pair, others at mid-level} + one centre run: %d runs, expected %d" % (len(rows), len(exp))
+    return None
+
+
+def stream_dict_api(ctx):
+    rng = ctx.rng
+    for _ in range(120 if ctx.quick else 1500):
+        kind = rng.choice(["ff", "bb"])
+        n = rng.randint(1, 5) if kind == "ff" else rng.randint(3, 7)
+        levels = []
+        for j in range(n):
+            lo = rng.choice([0.0, -1.0, 10.0, float(rng.randint(-50, 50))])
+            k = rng.randint(1, 4) if kind == "ff" else rng.choice([2, 3])
+            step = rng.choice([0.5, 1.0, 2.5, 7.0])
+            levels.append([lo + step * i for i in range(k)])
+        ctx.case(("dict-api", kind, repr(levels)), nontrivial=True, sample={"op": "dict-api", "kind": kind, "levels": levels[:4]})
+        ctx.count("dict_api_" + kind)
+        why = dict_api_violation(kind, levels)
+        if why:
+            ctx.fail("dict-api-" + kind, "doe.%s on the level lists %r: %s" % ("build_full_fact" if kind == "ff" else "build_box_behnken", levels, why),
+                     {"op": "dict-api", "kind": kind, "levels": levels})
+            return
 
 
 def stream_pb_levels(ctx):
@@ -731,6 +781,11 @@ def replay_pb_levels(c):
 def replay(ctx, rp):
     if rp.get("case", {}).get("op") == "pb-levels":
         return replay_pb_levels(rp["case"])
+    if rp.get("case", {}).get("op") == "dict-api":
+        c = rp["case"]
+        why = dict_api_violation(c["kind"], [list(lv) for lv in c["levels"]])
+        print("doe.build_* (%s) on %r: %s" % (c["kind"], c["levels"], why or "the design the statement describes"))
+        return why is None
     case = rp["case"]
     kind, c = case.get("op"), case.get("case")
     if kind is None or c is None:
